@@ -7,6 +7,9 @@ def handle (fn : String) (args : List Json) : String :=
   | "compact" => match args with
     | [a0] => (do let x0 ← Wire.decStr a0; pure (Wire.respondWith Wire.encStr (Gen.ismn.compact x0)) : Option String).getD "badargs"
     | _ => "badargs"
+  | "format" => match args with
+    | [a0, a1] => (do let x0 ← Wire.decStr a0; let x1 ← Wire.decStr a1; pure (Wire.respondWith Wire.encStr (Gen.ismn.format x0 x1)) : Option String).getD "badargs"
+    | _ => "badargs"
   | "is_valid" => match args with
     | [a0] => (do let x0 ← Wire.decStr a0; pure (Wire.respondWith Wire.encBool (Gen.ismn.is_valid x0)) : Option String).getD "badargs"
     | _ => "badargs"
